@@ -1,7 +1,7 @@
 CONSTANTS
   Variant = "default_subclass"
   Family = "render"
-  Size = "q"
+  Size = "m"
 INIT Init
 NEXT Next
 CHECK_DEADLOCK FALSE
